@@ -286,7 +286,7 @@ func (in *Interp) slot(obj *Object, path []PathElem) (get func() Value, set func
 		}
 		return func() Value { return c.E[last.I] }, func(v Value) { c.E[last.I] = v }
 	}
-	panic(fmt.Sprintf("engine: bad path into %T", cur))
+	panic(fmt.Sprintf("engine: bad path into %T at %s stack %v", cur, in.Prog.Fset.Position(in.curPos), in.stack))
 }
 
 func child(v Value, i int) Value {
